@@ -36,6 +36,70 @@ def make2(A, B, red, plain=False):
     return desc, {"tds": tds}
 
 
+# ---- listed actions of other kinds than plain keys (docs: "tap-dance ... list of actions"; the guide's own
+# tap-dance-eager example lists three macros).  An entry: ("key", k) | ("macro", [k1, k2..]) | ("multi", [k1, k2..]) |
+# ("xx",) | ("relkey", k) (k is never down: no output) | ("lwh", layer).  The monitor learns each entry's observable
+# effect from this description: kind, marker key (first key typed / pressed), further keys.
+def entry_action(e):
+    if e[0] == "key":
+        return K(e[1])
+    if e[0] == "macro":
+        return {"t": "macro", "variant": "macro", "items": list(e[1])}
+    if e[0] == "multi":
+        return {"t": "multi", "acs": [K(k) for k in e[1]]}
+    if e[0] == "xx":
+        return {"t": "xx"}
+    if e[0] == "relkey":
+        return {"t": "relkey", "k": e[1]}
+    if e[0] == "lwh":
+        return {"t": "lwh", "l": e[1]}
+    raise ToolError("c17 entry %r" % (e,))
+
+
+def entry_params(e):
+    """(kind, marker code, further codes)"""
+    if e[0] == "key":
+        return "key", cfgdesc.code(e[1]), []
+    if e[0] in ("macro", "multi"):
+        return e[0], cfgdesc.code(e[1][0]), [cfgdesc.code(k) for k in e[1][1:]]
+    return "silent", 0, []
+
+
+def make_kinds(eager, T, entries, red):
+    """one tap-dance key (a) whose list entries are actions of several kinds + one plain key (b -> q; w on the layer
+    a listed layer-while-held activates)"""
+    td = {"t": "td", "timeout": T, "acs": [entry_action(e) for e in entries], "eager": eager}
+    layers = [{"a": td, "b": K("q")}]
+    if any(e[0] == "lwh" for e in entries):
+        layers.append({"b": K("w")})
+    desc = {"keys": ["a", "b"], "layers": layers, "defcfg": {"rapid-event-delay": red}}
+    eps = [entry_params(e) for e in entries]
+    params = {"k": cfgdesc.code("a"), "T": T, "outs": [m for _, m, _ in eps], "eager": eager,
+              "others": [{"c": cfgdesc.code("b"), "o": cfgdesc.code("q")}], "red": red,
+              "kinds": [k for k, _, _ in eps], "also": [a for _, _, a in eps]}
+    return desc, params
+
+
+MAC = lambda *ks: ("macro", list(ks))
+# (name, eager, T, entries, red)
+KINDS_QUICK = [
+    # the config guide's example shape: every entry a macro typing its own keys
+    ("mac", True, 3, [MAC("x", "r"), MAC("y"), MAC("z")], 1),
+    ("xx1", True, 2, [("xx",), ("key", "y"), MAC("z")], 1),
+    ("rel1", True, 3, [("relkey", "n"), ("multi", ["y", "t"]), ("lwh", 1)], 0),
+    ("mix", False, 2, [MAC("x"), ("xx",), ("key", "z")], 1),
+    ("mix2", False, 3, [("multi", ["x", "r"]), ("relkey", "n"), MAC("z", "t")], 0),
+]
+KINDS_THOROUGH = KINDS_QUICK + [
+    ("mac", False, 3, [MAC("x", "r"), MAC("y"), MAC("z")], 1),
+    ("xx1", False, 2, [("xx",), ("key", "y"), MAC("z")], 0),
+    ("lwh1", False, 3, [("lwh", 1), ("key", "y"), ("xx",)], 1),
+    ("mac4", True, 2, [MAC("x"), ("xx",), MAC("z", "t"), ("key", "1")], 0),
+    ("one", True, 3, [MAC("x", "r")], 1),
+    ("key1", True, 3, [("key", "x"), MAC("y"), ("xx",)], 1),
+]
+
+
 def form(e):
     return "eager" if e else "lazy"
 
@@ -60,6 +124,11 @@ def family(tier):
     fam += [("two_%s_T%d_n%d_%s_T%d_n%d_r%d%s%s" % (form(A[0]), A[1], A[2], form(B[0]), B[1], B[2], r, "_c" if pl else "",
                                                    "" if q == 3 else "_q%d" % q),
              make2(A, B, r, pl), q) for (A, B, r, pl, q) in pairs]
+    fam += [("kinds_%s_%s_T%d_r%d" % (form(e), nm, T, r), make_kinds(e, T, ents, r), 3)
+            for (nm, e, T, ents, r) in (KINDS_QUICK if tier == "quick" else KINDS_THOROUGH)]
+    only = os.environ.get("C17_ONLY")      # development aid: run the instances whose name contains this text
+    if only:
+        fam = [f for f in fam if only in f[0]]
     return fam
 
 
@@ -95,7 +164,7 @@ def run(tier, seed):
                 "invariants": ["StutterProbe", "CoverProbe"], "extra_tags": ["COVER"],
                 "extra_defs": "TapBound == mon.err # \"\" \\/ Mon!TapsBounded(mon)\n"
                               "CoverProbe == ~Mon!CoverClass(mon) \\/ PrintT(<<\"COVER\", ToJson([h |-> hist])>>)"}
-        r = mc.check_instance(inst, wd, workers=6, timeout=1500)
+        r = mc.check_instance(inst, wd, workers=4, timeout=1500)
         res.add_instance(r)
         if len(res.samples) < 3 or (name.startswith("two_") and len(res.samples) < 5):
             res.samples.append({"instance": name, "kbd": kbd, "states": r["states"], "edges": r.get("edges")})
@@ -139,5 +208,8 @@ def run(tier, seed):
         "length + 2 taps) per form/timeout/list-length instance; every model transition is replayed on the real code; "
         "model-level counterexamples, TLC-enumerated class witnesses (taps past the end of an eager list, a dance begun "
         "by interrupting another key's dance) and random schedules (gaps around T) are recorded from the code and "
-        "validated by TLC against P_C17.",
-        assumptions=["deterministic stepper", "listed actions are distinct otherwise-unused keys"])
+        "validated by TLC against P_C17. `kinds_*` instances: the listed actions are macros (typing their own keys), XX, "
+        "release-key, multi and layer-while-held; the monitor knows each entry's observable effect from the description "
+        "(marker key and tick, further keys, or no output at all).",
+        assumptions=["deterministic stepper", "listed actions use distinct otherwise-unused keys",
+                     "a listed macro's first key appears one tick after a key action would (calibrated)"])
